@@ -92,6 +92,39 @@ SITES["C11"] += [
          operands=[("y", "coreT"), ("(gen_dmrgFwdB cj P A x)", "arr4")], prio=["y"], dims={"j": "A.m"}),
 ]
 
+_DH = dict(file="torchtt/_dmrg.py", func="dmrg_hadamard_python")
+SITES["C11"] += [
+    dict(_DH, name="hadW1a", target="W1", occ=0, model="TT.Kern.dmrgW1a", params="(cj : α → α) (PL : Phi3 α) (x1 : Core α)", app="cj PL x1",
+         operands=[("PL", "phi3"), ("x1", "conjT")], prio=["x1"]),
+    dict(_DH, name="hadW1b", target="W1", occ=1, model="TT.Kern.hadW1b", params="(cj : α → α) (PL : Phi3 α) (z1 x1 : Core α)", app="cj PL z1 x1",
+         operands=[("z1", "conjT"), ("(gen_hadW1a cj PL x1)", "arr4")], prio=["z1"]),
+    dict(_DH, name="hadW2a", target="W2", occ=0, model="TT.Kern.dmrgW2a", params="(cj : α → α) (PR : Phi3 α) (x2 : Core α)", app="cj PR x2",
+         operands=[("PR", "phi3"), ("x2", "conjT")], prio=["x2"]),
+    dict(_DH, name="hadW2b", target="W2", occ=1, model="TT.Kern.hadW2b", params="(cj : α → α) (PR : Phi3 α) (z2 x2 : Core α)", app="cj PR z2 x2",
+         operands=[("z2", "conjT"), ("(gen_hadW2a cj PR x2)", "arr4")], prio=["z2"]),
+    dict(_DH, name="hadWc", target="W", occ=0, model="TT.Kern.hadWc", params="(cj : α → α) (PL PR : Phi3 α) (z1 x1 z2 x2 : Core α)", app="cj PL PR z1 x1 z2 x2",
+         operands=[("(gen_hadW1b cj PL z1 x1)", "arr4"), ("(gen_hadW2b cj PR z2 x2)", "arr4")], prio=[], dims={"k": "z1.r1", "l": "x1.r1"}),
+    dict(_DH, name="hadBckA", target="Phi", occ=0, model="TT.Kern.dmrgBckA", params="(cj : α → α) (P : Phi3 α) (x : Core α)", app="cj P x",
+         operands=[("P", "phi3"), ("x", "conjT")], prio=["x"]),
+    dict(_DH, name="hadBckB", target="Phi", occ=1, model="TT.Kern.hadBckB", params="(cj : α → α) (P : Phi3 α) (z x : Core α)", app="cj P z x",
+         operands=[("z", "conjT"), ("(gen_hadBckA cj P x)", "arr4")], prio=["z"]),
+    dict(_DH, name="hadBckC", target="Phi", occ=2, model="TT.Kern.hadBckC", params="(cj : α → α) (P : Phi3 α) (y z x : Core α)", app="cj P y z x",
+         operands=[("(gen_hadBckB cj P z x)", "arr4"), ("y", "coreT")], prio=["y"], dims={"j": "z.m"}),
+    dict(_DH, name="hadFwdA", target="Phi_next", occ=0, model="TT.Kern.dmrgFwdA", params="(cj : α → α) (P : Phi3 α) (x : Core α)", app="cj P x",
+         operands=[("P", "phi3"), ("x", "conjT")], prio=["x"]),
+    dict(_DH, name="hadFwdB", target="Phi_next", occ=1, model="TT.Kern.hadFwdB", params="(cj : α → α) (P : Phi3 α) (z x : Core α)", app="cj P z x",
+         operands=[("(gen_hadFwdA cj P x)", "arr4"), ("z", "conjT")], prio=["z"]),
+    dict(_DH, name="hadFwdC", target="Phi_next", occ=2, model="TT.Kern.hadFwdC", params="(cj : α → α) (P : Phi3 α) (y z x : Core α)", app="cj P y z x",
+         operands=[("y", "coreT"), ("(gen_hadFwdB cj P z x)", "arr4")], prio=["y"], dims={"j": "z.m"}),
+]
+
+SITES["C16"] = [
+    dict(name="pleftStep", file="torchtt/manifold.py", func="riemannian_projection", target="tmp", occ=0, model="TT.Manifold.pleftStep",
+         params="(P : Phi2 α) (l z : Core α)", operands=[("P", "phi2"), ("l", "coreM"), ("z", "coreM")], prio=["l", "z"]),
+    dict(name="prightStep", file="torchtt/manifold.py", func="riemannian_projection", target="tmp", occ=2, model="TT.Manifold.prightStep",
+         params="(P : Phi2 α) (rc z : Core α)", operands=[("P", "phi2"), ("rc", "coreM"), ("z", "coreM")], prio=["rc", "z"]),
+]
+
 
 class SiteError(Exception):
     pass
@@ -190,7 +223,7 @@ def generate(prop):
         defs.append("/-- %s:%d  `%s = …('%s', %s)` -/\ndef gen_%s %s :=\n  %s\n" % (site["file"], lineno, tname, subs, ", ".join(args), site["name"], site["params"], term))
         defs.append("theorem gen_%s_eq %s : gen_%s %s = %s %s := rfl\n" % (site["name"], site["params"], site["name"], app, site["model"], app))
         thms.append(("gen_%s_eq" % site["name"], site, subs, args, lineno))
-    src = ("import TTModel.Kernels\nimport TTModel.KernelsDiv\nimport TTModel.KernelsDmrg\n/-! GENERATED by harness/einsum2lean.py from the current source of /repo — do not edit -/\n"
+    src = ("import TTModel.Kernels\nimport TTModel.KernelsDiv\nimport TTModel.KernelsDmrg\nimport TTModel.Manifold\n/-! GENERATED by harness/einsum2lean.py from the current source of /repo — do not edit -/\n"
            "set_option linter.unusedSectionVars false\nnamespace TT.Gen\nopen TT TT.Kern\nvariable {α : Type} [Zero α] [One α] [Add α] [Mul α]\n\n" + "\n".join(defs) + "\nend TT.Gen\n")
     return src, thms, errs
 
